@@ -28,7 +28,7 @@ ASSUMPTIONS = [
     "as C01 (no HP-based filters; third-party determinism trusted)",
     "the RL scheduler is limited to one session by the quantifier and takes no part in cuts",
 ]
-REQUIRED_COUNTERS = {"continued_in_another_process": 12, "many_parameter_cases": 4, "saving_folder_used_before_by_another_run": 20, "tiny_grid_cases": 5, "segmented_runs": 150, "restore_cuts": 100, "plain_cuts": 100, "cuts_before_stateful": 80, "restore_chains": 10}
+REQUIRED_COUNTERS = {"folders_not_spelled_canonically": 40, "continued_in_another_process": 12, "many_parameter_cases": 4, "saving_folder_used_before_by_another_run": 20, "tiny_grid_cases": 5, "segmented_runs": 150, "restore_cuts": 100, "plain_cuts": 100, "cuts_before_stateful": 80, "restore_chains": 10}
 REQUIRED_COUNTERS.update({f"cut_before_{k}": 1 for k in G.SAMPLER_KINDS})
 SHARDS = {"quick": 16, "thorough": 16}
 SHARD_WATCHDOG = {"quick": 1500, "thorough": 10800}
@@ -98,6 +98,16 @@ def run_case(desc, ctx):
             continue
         wit = {"config": cfg, "batches": n, "labelling": list(lab), "legend": "0 none, 1 second calibrate(), 2 checkpoint/restore/continue"}
         folder = str(ctx.scratch() / "ck")
+        if i % 4 == 3:
+            # the folder is not spelled canonically: relative to the working directory, through "..", with a "./" or a trailing slash
+            import os
+
+            how = int(rng.integers(0, 4))
+            base_, name_ = os.path.split(folder)
+            os.makedirs(os.path.join(base_, "sub"), exist_ok=True)
+            folder = [os.path.relpath(folder), os.path.join(base_, "sub", "..", name_), os.path.join(base_, ".", name_), folder + "/"][how]
+            c["folders_not_spelled_canonically"] = c.get("folders_not_spelled_canonically", 0) + 1
+            wit["folder_spelling"] = ["relative", "through ..", "with ./", "trailing slash"][how]
         if 2 in lab and i % 4 == 2:
             # the saving folder was used before by another calibration (other loss, line-up, shapes): what is restored later must be this run
             try:
